@@ -275,7 +275,7 @@ def checkOutput (box : Bound Q) (o : Int) (tol : Q) (sp : Spec) (qs : List (Pt Q
   | none =>
   -- holes that stay inside: verbatim, in exactly one polygon, inside that polygon's outer ring and in
   -- none of its other holes (the polygon that CONTAINS them, not merely one whose outer ring surrounds them)
-  let holeBad := sp.keptHoles.filter fun h =>
+  let holeBad := (sp.keptHoles.filter fun h => tol == 0 || !(isSliver tol h)).filter fun h =>
     let owners := out.filter fun pg => (pg.drop 1).any (· == h)
     match owners with
     | [pg] =>
@@ -353,16 +353,68 @@ def nearMissTouch (box : Bound F) (rings : List (List (Pt F))) : Bool :=
       !(Core.ptEq e v) && Float.abs (e.x - v.x) ≤ d && Float.abs (e.y - v.y) ≤ d
   | _ => false
 
+/-! #### finding C16-near-line-rounding: the mechanism, recognised on the case
+
+  A ring vertex NEXT TO one of the four box lines (not on it; a few ulps … 1e-9 away): the points where
+  the edges through that vertex are cut land within rounding distance of each other, of the vertex, or of
+  a box corner.  On the exact lines they have one order along the box boundary, lie on one side, bound one
+  piece; the rounded intersections of `clip.line` say otherwise (two piece ends swap, an end falls onto
+  the corner and so onto the next side, a piece narrower than an ulp is lost), `sortableEndpoints` sorts
+  what it is given and `smartWrap` stitches the wrong ends together. -/
+
+/-- some input vertex lies NEXT TO one of the four box lines: at a distance in (0, d] -/
+def nearLineVertex (bq : Bound Q) (d : Q) (rings : List (List (Pt Q))) : Bool :=
+  rings.flatten.any fun v =>
+    [v.x - bq.lo.x, v.x - bq.hi.x, v.y - bq.lo.y, v.y - bq.hi.y].any fun t => t != 0 && absQ t ≤ d
+
+/-- the combinatorial decisions of `clipRings` + the endpoint sort: the lengths of the open pieces, in
+    order; the endpoints — `(piece index, is start, side)` — in the order the sort leaves them; and the
+    pairs of (sorted) endpoints that lie in one point (`smartWrap` compares endpoints with `==`) -/
+def wrapTrace {α : Type} [Add α] [Sub α] [Mul α] [Div α] [LT α] [LE α] [DecidableLT α] [DecidableLE α] [BEq α]
+    [OfNat α 0] [OfNat α 2] (box : Bound α) (rings : List (List (Pt α))) (o : Int) :
+    Option (List Nat × List (Nat × Bool × Nat) × List (Nat × Nat)) :=
+  match clipRings box rings with
+  | .ok (op, _) =>
+    (match mkEndpoints box 0 op with
+     | .ok eps =>
+       (match sortE op (o != SmartClip.CCW) eps with
+        | .ok s =>
+          let idx := List.range s.length
+          let same := idx.flatMap fun a => idx.filterMap fun c =>
+            match s[a]?, s[c]? with
+            | some x, some y => if a < c && Core.ptEq x.point y.point then some (a, c) else none
+            | _, _ => none
+          some (op.map (·.length), s.map (fun e => (e.index, e.start, e.side)), same)
+        | _ => none)
+     | _ => none)
+  | _ => none
+
+/-- the mechanism of finding C16-near-line-rounding: an input vertex lies next to a box line (distance in
+    (0, 1e-9·scale]) AND the Float twin takes other combinatorial decisions than the exact model (other
+    pieces, an endpoint on another side, two endpoints in another order, two endpoints in one point that
+    are apart on the exact lines or the other way round) -/
+def nearLineRounding (bq : Bound Q) (ringsQ : List (List (Pt Q))) (bf : Bound F) (ringsF : List (List (Pt F))) (o : Int) : Bool :=
+  let d : Q := tolQ * (1 + absQ bq.lo.x + absQ bq.hi.x + absQ bq.lo.y + absQ bq.hi.y)
+  nearLineVertex bq d ringsQ &&
+  (match wrapTrace bq ringsQ o, wrapTrace bf ringsF o with
+   | some tq, some tf => tq != tf
+   | _, _ => false)
+
 /-- the last step of every handler: model agreement, `+diff`, and the float-only classes.
     * `propfail touch-order …` (the exact model passes where the implementation fails) with the Float twin
-      reproducing the implementation is a failure of float rounding only: it is the known finding
+      reproducing the implementation is a failure of float rounding only:
+      `propfail rounding-sensitive near-line-vertex …` (finding C16-near-line-rounding) when `nearVtx`
+      recognises its mechanism on the case; the former finding
       `rounding-sensitive touch-order region-differs | polygons-overlap` when the clause is the region
-      (wrong, or covered twice) and `nearMiss` recognises the mechanism, and `propfail float-only …` (never matched by a known finding) otherwise;
+      (wrong, or covered twice) and `nearMiss` recognises that mechanism; and
+      `propfail float-only …` (never matched by a known finding) otherwise;
     * every other `propfail` gets ` +diff` when the model disagrees with the implementation. -/
-def finish (model got : String) (cls : String) (verdict : String) (nearMiss : Bool := false) : String :=
+def finish (model got : String) (cls : String) (verdict : String) (nearMiss : Bool := false)
+    (nearVtx : Unit → Bool := fun _ => false) : String :=
   let agree := model == got
   if verdict.startsWith "propfail touch-order" && agree then
-    (if (verdict.startsWith "propfail touch-order region-differs" ||
+    (if nearVtx () then "propfail rounding-sensitive near-line-vertex " ++ (verdict.drop 21).toString
+     else if (verdict.startsWith "propfail touch-order region-differs" ||
          verdict.startsWith "propfail touch-order polygons-overlap") && nearMiss then
       "propfail rounding-sensitive " ++ (verdict.drop 9).toString
      else "propfail float-only " ++ (verdict.drop 9).toString)
@@ -434,7 +486,7 @@ def judgeRing (o : Int) (bq : Bound Q) (path full qs : List (Pt Q)) (outq : MP Q
     else
       let sp : Spec := { inside := evenOdd u, polys := [[u]], rings := [u], keptHoles := [] }
       match checkOutput bq o tol sp qs outq with
-      | some why => classify why (checkOutput bq o tolQ sp qs) outq fixedOut
+      | some why => classify why (checkOutput bq o tol sp qs) outq fixedOut
       | none =>
         let n := outq.length
         "ok " ++ mode ++ (if n == 0 then " none" else if n == 1 then " one-polygon" else " multi-polygon") ++ sfx
@@ -454,7 +506,10 @@ def handleRing (isOpen : Bool) (inp out : Toks) : String :=
     let ms := showRes (m.map showMPF)
     let got := " ".intercalate out
     let cls := sortClass (boundF b) [ptsF ps]
-    finish ms got cls (nearMiss := nearMissTouch (boundF b) [ptsF ps]) <|
+    finish ms got cls (nearMiss := nearMissTouch (boundF b) [ptsF ps])
+      (nearVtx := fun _ => match boundQ b, ptsQ ps with
+        | some bq, some pq => nearLineRounding bq [pq] (boundF b) [ptsF ps] o
+        | _, _ => false) <|
     if !(validO o) then "ok invalid-orientation (model only)" else
     if let some v := watchdogClause ms out then v else
     if out == ["panic"] then panicClause m else
@@ -525,9 +580,35 @@ def handleArc (inp out : Toks) : String :=
          | _, _ => "bad arc path")
       | _, _, _, _ => "skip non-finite"
 
+/-- `some p`: the two (implicitly closed) rings have exactly ONE point in common — `p`, a vertex of one of
+    them lying on the other — and no two of their edges cross properly or overlap; `none`: they are apart,
+    or they meet in any other way -/
+def touchPoint? (r1 r2 : List (Pt Q)) : Option (Pt Q) :=
+  let onRing (r : List (Pt Q)) (v : Pt Q) : Bool := (edgesOf r).any fun (a, b) => orientQ a b v == 0 && inBBox a b v
+  let cands := ((r1.filter (onRing r2)) ++ (r2.filter (onRing r1))).eraseDups
+  match cands with
+  | [p] =>
+    let proper := (edgesOf r1).any fun (a, b) => (edgesOf r2).any fun (c, d) =>
+      let d1 := orientQ c d a; let d2 := orientQ c d b
+      let d3 := orientQ a b c; let d4 := orientQ a b d
+      ((d1 > 0 && d2 < 0) || (d1 < 0 && d2 > 0)) && ((d3 > 0 && d4 < 0) || (d3 < 0 && d4 > 0))
+    if proper then none else some p
+  | _ => none
+
+/-- `ringsApart`, or (with `touch`) one common point -/
+def apartOrTouch (touch : Bool) (r1 r2 : List (Pt Q)) : Bool :=
+  ringsApart r1 r2 || (touch && (touchPoint? r1 r2).isSome)
+
+/-- every vertex of `a` other than the touching point satisfies `f` -/
+def allBut (touch : Bool) (a c : List (Pt Q)) (f : Pt Q → Bool) : Bool :=
+  let tp := if touch then touchPoint? a c else none
+  a.all fun v => tp == some v || f v
+
 /-- well-formedness of a polygon for the property: simple rings, outer wound `o`, holes wound `-o`,
-    strictly inside the outer ring, pairwise apart and not nested -/
-def polyWellFormed (o : Int) (pg : List (List (Pt Q))) : Bool :=
+    strictly inside the outer ring, pairwise apart and not nested.  With `touch` a hole may share exactly
+    one point with the outer ring (a valid OGC polygon still; the quantifier's "interior holes" read
+    strictly excludes it: such cases are judged, tagged `ring-touch`, and are their own finding class). -/
+def polyWellFormedT (touch : Bool) (o : Int) (pg : List (List (Pt Q))) : Bool :=
   match pg with
   | [] => false
   | outer :: holes =>
@@ -535,26 +616,32 @@ def polyWellFormed (o : Int) (pg : List (List (Pt Q))) : Bool :=
     let uo := unclose outer
     let uh := holes.map unclose
     closedOK && simpleQ uo && signOf (area2 uo) == o &&
-    uh.all (fun h => simpleQ h && signOf (area2 h) == -o && ringsApart h uo && h.all (evenOdd uo)) &&
+    uh.all (fun h => simpleQ h && signOf (area2 h) == -o && apartOrTouch touch h uo && allBut touch h uo (evenOdd uo)) &&
     (List.range uh.length).all fun i => (List.range uh.length).all fun j =>
       if j ≤ i then true else
       match uh[i]?, uh[j]? with
       | some a, some b => ringsApart a b && !(a.any (evenOdd b)) && !(b.any (evenOdd a))
       | _, _ => true
 
+def polyWellFormed (o : Int) (pg : List (List (Pt Q))) : Bool := polyWellFormedT false o pg
+
 /-- the (unclosed) ring `a` lies inside one of the holes of `pg` -/
 def insideHoleOf (a : List (Pt Q)) (pg : List (List (Pt Q))) : Bool :=
   (pg.drop 1).any fun h => let uh := unclose h; ringsApart a uh && a.all (evenOdd uh)
 
-/-- members `p`, `q` of a valid multi-polygon: outer rings apart, and either side by side or one of them
-    inside a hole of the other (an island in a lake).  The property's quantifier says "multi-polygons":
-    valid OGC multi-polygons, whose members have disjoint interiors — nesting through a hole included. -/
-def membersOK (p q : List (List (Pt Q))) : Bool :=
+/-- members `p`, `q` of a valid multi-polygon: outer rings apart (with `touch`: or sharing one point), and
+    either side by side or one of them inside a hole of the other (an island in a lake).  The property's
+    quantifier says "multi-polygons": valid OGC multi-polygons, whose members have disjoint interiors —
+    nesting through a hole included. -/
+def membersOKT (touch : Bool) (p q : List (List (Pt Q))) : Bool :=
   match p, q with
   | po :: _, qo :: _ =>
     let a := unclose po; let c := unclose qo
-    ringsApart a c && ((!(a.any (evenOdd c)) && !(c.any (evenOdd a))) || insideHoleOf a q || insideHoleOf c p)
+    (ringsApart a c && ((!(a.any (evenOdd c)) && !(c.any (evenOdd a))) || insideHoleOf a q || insideHoleOf c p)) ||
+    (touch && (touchPoint? a c).isSome && allBut true a c (fun v => !(evenOdd c v)) && allBut true c a (fun v => !(evenOdd a v)))
   | _, _ => true
+
+def membersOK (p q : List (List (Pt Q))) : Bool := membersOKT false p q
 
 def pairsAll (l : MP Q) (f : List (List (Pt Q)) → List (List (Pt Q)) → Bool) : Bool :=
   (List.range l.length).all fun i => (List.range l.length).all fun j =>
@@ -586,12 +673,28 @@ def boxInOuter (bq : Bound Q) (mpq : MP Q) : Bool :=
     contains the whole box while none of its rings meets the open box (`some "box-inside-ring"`: smartclip
     returns nothing for such a member, as for a single ring; outside the quantifier, which asks for a
     boundary that meets the open box) -/
-def mpOutsideQuantifier (o : Int) (bq : Bound Q) (mpq : MP Q) : Option String :=
+def mpOutsideQuantifierT (touch : Bool) (o : Int) (bq : Bound Q) (mpq : MP Q) : Option String :=
   let mpq := mpq.filter fun pg => !pg.isEmpty
-  if !(mpq.all (polyWellFormed o)) then some "not-well-formed" else
-  if !(pairsAll mpq membersOK) then some "not-well-formed" else
+  if !(mpq.all (polyWellFormedT touch o)) then some "not-well-formed" else
+  if !(pairsAll mpq (membersOKT touch)) then some "not-well-formed" else
   let swallow := mpq.any fun pg => !(pg.any fun r => meetsOpenBox bq r) && inPolygon (pg.map unclose) (boxCentre bq)
   if swallow then some "box-inside-ring" else none
+
+def mpOutsideQuantifier (o : Int) (bq : Bound Q) (mpq : MP Q) : Option String := mpOutsideQuantifierT false o bq mpq
+
+/-- two open pieces of the Float twin's `clipRings` START in the same point: the one situation in which
+    `smartWrap`'s test for "loop complete" (`ep.Point.Equal(current[0])`, a comparison of POINTS) can take the
+    start of another piece for the start of the ring being stitched -/
+def coincidentStarts (box : Bound F) (rings : List (List (Pt F))) : Bool :=
+  match clipRings box rings with
+  | .ok (op, _) =>
+    let starts := op.filterMap (·.head?)
+    let idx := List.range starts.length
+    idx.any fun i => idx.any fun j => i < j &&
+      (match starts[i]?, starts[j]? with
+       | some a, some c => Core.ptEq a c
+       | _, _ => false)
+  | _ => false
 
 /-- every hole of the output re-attached to the innermost outer ring that contains it (the repair of
     finding C16-nested-hole-misassigned, applied to the implementation's output) -/
@@ -630,7 +733,13 @@ def handlePolys (multi : Bool) (inp out : Toks) : String :=
     let ms := showRes (m.map showMPF)
     let got := " ".intercalate out
     let cls := sortClass (boundF b) (mpf.flatten)
-    finish ms got cls (nearMiss := nearMissTouch (boundF b) mpf.flatten) <|
+    -- the rings in the order their pieces reach `smartWrap`
+    let ringOrder {β : Type} (mp : MP β) : List (List (Pt β)) :=
+      if multi then (mp.filterMap (·.head?)) ++ (mp.flatMap fun p => p.drop 1) else mp.flatten
+    finish ms got cls (nearMiss := nearMissTouch (boundF b) mpf.flatten)
+      (nearVtx := fun _ => match boundQ b, mpQ mpb with
+        | some bq, some mq => nearLineRounding bq (ringOrder mq) (boundF b) (ringOrder mpf) o
+        | _, _ => false) <|
     if !(validO o) then "ok invalid-orientation (model only)" else
     if let some v := watchdogClause ms out then v else
     if out == ["panic"] then panicClause m else
@@ -646,10 +755,15 @@ def handlePolys (multi : Bool) (inp out : Toks) : String :=
         let tol : Q := if exact then 0 else tolQ
         let sfx := (if exact then "" else " approx") ++ cls
         let kind := if multi then "mpoly" else "poly"
-        match mpOutsideQuantifier o bq mpq0 with
+        -- `touching`: outside the strict quantifier only because two rings share exactly one point
+        let strict := mpOutsideQuantifier o bq mpq0
+        let relaxed := if strict == some "not-well-formed" then mpOutsideQuantifierT true o bq mpq0 else strict
+        let touching := strict.isSome && relaxed.isNone
+        match relaxed with
         | some "box-inside-ring" => "skip box-inside-ring"
         | some _ => "ok not-well-formed (model only)"
         | none =>
+        let sfx := (if touching then " ring-touch" else "") ++ sfx
         -- members without rings are skipped by the code (`if len(p) == 0 { continue }`) and enclose nothing
         let mpq := mpq0.filter fun pg => !pg.isEmpty
         let emptyTag := if mpq.length < mpq0.length then " empty-members" else ""
@@ -672,6 +786,13 @@ def handlePolys (multi : Bool) (inp out : Toks) : String :=
         -- model does not reproduce the implementation)
         let label (why : String) : Option String :=
           if swallowed then some ("propfail box-inside-outer-ring " ++ why)
+          else if touching then
+            -- a failure of rounding only (the exact model's output passes) goes the way of all such failures
+            let c := if why == "inside-not-unchanged" then "" else classify why (checkOutput bq o tol sp qq) outq fixedOut
+            if c.startsWith "propfail touch-order" then some c
+            -- finding C16-ring-touch-on-box-side: recognised when two pieces start in one point
+            else if coincidentStarts (boundF b) mpf.flatten then some ("propfail ring-touch-on-box-side " ++ why)
+            else some ("propfail ring-touch " ++ why)
           else if nested && (checkOutput bq o tolQ sp qq (reassignHoles outq)).isNone then
             some ("propfail nested-member hole-misassigned " ++ why)
           else none
@@ -685,7 +806,7 @@ def handlePolys (multi : Bool) (inp out : Toks) : String :=
           if multi && !cut && !swallowed && outq0 == mpq0 && why == "vertex-outside-box" then "propfail uncut-multipolygon-keeps-outside-members"
           else match label why with
             | some l => l
-            | none => classify why (checkOutput bq o tolQ sp qq) outq fixedOut
+            | none => classify why (checkOutput bq o tol sp qq) outq fixedOut
         | none =>
           -- nothing is cut: the members inside the box come back verbatim ("returned unchanged")
           let unchanged := mpq.filter fun pg => match pg with
@@ -822,7 +943,11 @@ def handleGeom (inp out : Toks) : String :=
            (if boxInOuter bq inq then "propfail box-inside-outer-ring vertex-outside-box" else "propfail vertex-outside-box") else
          -- an output ring that is not closed must be an input ring handed back as it was
          let inRings := inB.flatten
-         if !((polysOf r).flatten.all fun rg => (rg.length ≥ 2 && rg.head? == rg.getLast?) || inRings.contains rg) then
+         -- bit patterns: -0 and +0 are the same coordinate (Go compares with ==)
+         let nz (rg : List (Pt UInt64)) : List (Pt UInt64) :=
+           rg.map (mapPt fun c => if c == 0x8000000000000000 then 0 else c)
+         let inRingsN := inRings.map nz
+         if !((polysOf r).flatten.all fun rg => (rg.length ≥ 2 && (nz rg).head? == (nz rg).getLast?) || inRingsN.contains (nz rg)) then
            "propfail ring-not-closed"
          else "ok geom " ++ kindTag ++ (if wf then "" else " (garbage)") ++
            (match r with | .collection _ => " -> collection" | .polygon _ => " -> polygon" | .multiPolygon _ => " -> multipolygon" | _ => " -> other")
